@@ -6,6 +6,22 @@ import os
 HERE = os.path.dirname(os.path.dirname(os.path.abspath(__file__)))
 
 CLAIMS = {
+    "C17": dict(
+        text="Static ordering analysis on the path structure of the abstract traces: in every facade entry point "
+             "(all 55 configurations) no validation/conversion that can raise, and no column-sensitive implementor "
+             "operation after a facade-level state change, is reachable after the first mutation; in every "
+             "contextual implementor's partial_fit a column-compatibility requiring operation on the call's "
+             "contexts dominates the first write (or the task updates a private copy and publishes it last, never "
+             "mutating it afterwards); the row-aligned history arrays are published together; warm_start computes "
+             "its mapping before writing. Decides 'exceptions that depend on argument validity or column "
+             "compatibility are raised before any state changes'. Found and guards the repaired one-by-one history "
+             "publish; TreeBandit's partial update is a known finding.",
+        note="Trusted: externals table (which externals require/define the column count). Exceptions unrelated to "
+             "column compatibility (singular matrices, k-means with too few rows) and rejected predict calls "
+             "advancing the stream are outside the claim.",
+        technique="path-sensitive ordering (must/may) walk over abstract-interpretation traces; ownership of "
+                  "published private copies",
+        ref="DESIGN.md section 3, C17"),
     "C01": dict(
         text="Static dependence / def-use analysis of the six context-free policies over fit, partial_fit, add_arm "
              "and remove_arm: fields are classified (computed) as accumulators or derived; a derived value never "
